@@ -618,6 +618,40 @@ def h_partly_protonated_terminus(eng, ff):
                 eng.check(bool(dd > 1.2), "no-coincident-atoms", note=f"N-terminal {resname} given without {gone}: {a.name} and {b.name} are {dd:.2f} A apart (tetrahedral sites are 1.6-1.7 A apart)")
 
 
+def h_nucleic_repair(eng, ff):
+    """a DNA / RNA strand whose phosphate oxygens carry the current wwPDB names OP1/OP2 or the old O1P/O2P (selector), with
+    one heavy atom of the middle nucleotide absent from the input or none (selector): after the real pipeline no two atoms
+    of a residue coincide (a phosphate oxygen rebuilt from the template on top of the one already there under its other
+    name), every atom has an atom of its residue at bonding distance"""
+    from pdb2pqr import main, utilities
+
+    kind = eng.choice("strand", 2)
+    seq = [["DA", "DT", "DG"], ["RA", "RU", "RC"]][kind]
+    new_names = eng.flag("phosphate_oxygens_named_OP1_OP2")
+    gone = [None, "N3", "C5'", "O4'"][eng.choice("atom_absent_from_middle_nucleotide", 4)]
+    lines = []
+    for ln in fixtures.nucleic_lines(seq):
+        if ln.startswith(("ATOM", "HETATM")):
+            name = ln[12:16].strip()
+            if gone and int(ln[22:26]) == 2 and name == gone:
+                continue
+            if new_names and name in ("O1P", "O2P"):
+                ln = ln[:12] + {"O1P": " OP1", "O2P": " OP2"}[name] + ln[16:]
+        lines.append(ln)
+    try:
+        bm, defn = fixtures.prepared(lines)
+        res = main.non_trivial(fixtures.Args(ff=ff, pka_method=None, debump=True, opt=True), bm, None, defn, False)
+    except (ValueError, KeyError, TypeError, AttributeError, IndexError) as e:
+        eng.check(False, "strand-processed", note=f"{seq} (OP1/OP2 names: {new_names}, without {gone}): {type(e).__name__}: {str(e)[:100]}")
+        return
+    # (whether every atom finds parameters is C01/C12's claim: a 5'-terminal phosphate named OP1/OP2 is kept and reported unassigned by the pinned code)
+    for r in bm.residues:
+        for a in r.atoms:
+            dmin, who = min((float(utilities.distance(a.coords, o.coords)), o.name) for o in r.atoms if o is not a)
+            eng.check(bool(dmin > 0.5), "no-coincident-atoms", note=f"{seq} (OP1/OP2 names: {new_names}, without {gone}): {r} {a.name} is {dmin:.3f} A from {who}")
+            eng.check(bool(dmin < 1.95), "atom-attached-to-its-residue", note=f"{seq} (OP1/OP2 names: {new_names}, without {gone}): {r} {a.name} has no atom of its residue within 1.95 A (nearest {who} at {dmin:.2f} A)")
+
+
 def h_neutral_terminus_locality(eng, ff="parse"):
     """--neutraln / --neutralc rebuild hydrogens of the terminal residues only: every atom of every NON-terminal
     residue - in particular the amide H of a later residue of the same type as the terminal one - is placed exactly
@@ -733,6 +767,7 @@ def obligations(tier):
         obs.append(Obligation(f"three-bond-free-position-{r}", h_three_bond_free_position, dict(resname=r, oxygen=ox), group="free-position", time_cap=600))
     obs.append(Obligation("template-bonds-are-bonds", table_template_bonds, {}, kind="table", group="templates"))
     obs.append(Obligation("partly-protonated-terminus-amber", h_partly_protonated_terminus, dict(ff="amber"), group="added-geometry", time_cap=1500))
+    obs.append(Obligation("nucleic-repair-amber", h_nucleic_repair, dict(ff="amber"), group="added-geometry", time_cap=1500))
     obs.append(Obligation("neutral-terminus-locality-parse", h_neutral_terminus_locality, dict(ff="parse"), group="added-geometry", time_cap=1500))
     for ff in ("parse",) if tier == "quick" else ("parse", "amber", "charmm"):
         obs.append(Obligation(f"added-water-{ff}", h_added_water, dict(ff=ff), group="added-geometry", time_cap=1500))
